@@ -51,7 +51,7 @@ Definition prio_of (d : definition) : res N :=
 
 (* the parent-chain walk of parse_token; [fuel] only makes the recursion
    structural: the [count > nodes.len()] guard ends the loop first *)
-Fixpoint walk (fuel : nat) (nodes : list pnode) (id : nat) (my : N) (rtl : bool) (under_group : option nat)
+Fixpoint walk (fuel : nat) (nodes : list pnode) (id : nat) (my : N) (is_side_effect : bool) (rtl : bool) (under_group : option nat)
          (current_left true_left : option nat) (count : nat) : res (option nat * option nat) :=
   match fuel with
   | O => OutOfFuel
@@ -65,13 +65,14 @@ Fixpoint walk (fuel : nat) (nodes : list pnode) (id : nat) (my : N) (rtl : bool)
         do their <- prio_of (n_def n);
         let is_our_group := is_group_like (n_def n) &&
              match under_group with None => false | Some g => Nat.eqb g li end in
-        let stop := N.ltb my their || (N.eqb my their && rtl) in
+        let completed_suffix := secondary_eqb (n_sec n) S_UnarySuffix && negb is_side_effect in
+        let stop := negb completed_suffix && (N.ltb my their || (N.eqb my their && rtl)) in
         if stop || is_our_group then Ok (Some li, true_left)
         else if opt_nat_eqb (n_right n) (Some id) then Err E_missing_operand
         else
           let count' := S count in
           if Nat.ltb (length nodes) count' then impl_err
-          else walk fuel' nodes id my rtl under_group (n_parent n) (Some li) count'
+          else walk fuel' nodes id my is_side_effect rtl under_group (n_parent n) (Some li) count'
       end
     end
   end.
@@ -81,7 +82,7 @@ Fixpoint walk (fuel : nat) (nodes : list pnode) (id : nat) (my : N) (rtl : bool)
 Definition parse_token (id : nat) (d : definition) (left : option nat) (nodes : list pnode)
            (under_group : option nat) (rtl : bool) : res (list pnode * option nat * option nat) :=
   do my <- prio_of d;
-  do w <- walk (S (S (length nodes))) nodes id my rtl under_group left left 0;
+  do w <- walk (S (S (length nodes))) nodes id my (definition_eqb d D_SideEffect) rtl under_group left left 0;
   let '(parent, true_left) := w in
   let true_left := if opt_nat_eqb parent true_left then None else true_left in
   do nodes1 <- match true_left with
@@ -148,7 +149,8 @@ Definition space_list_check (st : pstate) (under_group : option nat) : res bool 
     | Some ln =>
       let is_value := is_value_like (n_def ln) in
       let is_group_value := is_group_like (n_def ln) && negb (opt_nat_eqb (last_left st) under_group) in
-      Ok (if is_value || is_group_value then true else check_for_list st)
+      let is_suffix_value := secondary_eqb (n_sec ln) S_UnarySuffix in
+      Ok (if is_value || is_group_value || is_suffix_value then true else check_for_list st)
     end
   end.
 
@@ -161,8 +163,9 @@ Definition ends_value (s : secondary) : bool :=
   match s with S_Value | S_Identifier | S_EndGrouping | S_UnarySuffix => true | _ => false end.
 Definition starts_value (s : secondary) : bool :=
   match s with S_Value | S_Identifier | S_StartGrouping | S_UnaryPrefix => true | _ => false end.
-Definition forbidden_separated (previous current : secondary) : bool :=
-  if ends_value previous && starts_value current then false else forbidden previous current true.
+Definition forbidden_separated (previous current : secondary) (check_for_list : bool) : bool :=
+  if ends_value previous && starts_value current && check_for_list then false
+  else forbidden previous current check_for_list.
 
 Definition expected_end (d : definition) : option token_type :=
   match d with
@@ -217,7 +220,7 @@ Definition step (ntoks : nat) (i : nat) (tok : token_type) (st0 : pstate) : res 
   let '(definition, sec) := get_definition tok in
   if forbidden (prev_sec st) sec (check_for_list st) then Err E_composition else
   let trivia := match sec with S_Whitespace | S_Annotation => true | _ => false end in
-  if negb trivia && separated st && forbidden_separated (prev_sig st) sec then Err E_composition else
+  if negb trivia && separated st && forbidden_separated (prev_sig st) sec (check_for_list st) then Err E_composition else
   let new_sig := if trivia then prev_sig st else sec in
   let new_sep := trivia in
   (* result: (state with updated fields except the final push/last_left, info) *)
@@ -311,7 +314,8 @@ Definition step (ntoks : nat) (i : nat) (tok : token_type) (st0 : pstate) : res 
                   match nth_error (nodes st) l with
                   | None => impl_err
                   | Some ln =>
-                    let ln1 := if is_optional (n_def ln) || Nat.eqb l gleft then set_right None ln else ln in
+                    let empty_group := Nat.eqb l gleft && opt_nat_eqb (n_right ln) (Some current_id) in
+                    let ln1 := if is_optional (n_def ln) || empty_group then set_right None ln else ln in
                     match upd (nodes st) l (fun _ => ln1) with
                     | None => impl_err
                     | Some ns1 =>
@@ -456,7 +460,7 @@ Definition parse_trimmed (toks : list token_type) : res (nat * list pnode) :=
   | _ =>
     do st <- run_steps (length toks) 0 toks init_state;
     if forbidden (prev_sec st) S_None (check_for_list st) then Err E_composition else
-    if separated st && forbidden_separated (prev_sig st) S_None then Err E_composition else
+    if separated st && forbidden_separated (prev_sig st) S_None (check_for_list st) then Err E_composition else
     match group_stack st with
     | _ :: _ => Err E_unclosed_group
     | [] =>
